@@ -297,3 +297,26 @@ From OG Require Proofs.CogGenEquiv.
 Theorem C05_source_is_model : OG.Proofs.CogGenEquiv.cog_source_is_model.
 Proof. exact OG.Proofs.CogGenEquiv.cog_source_is_model_holds. Qed.
 Print Assumptions C05_source_is_model.
+
+(** ** Composition with C06, unconditional: in the file assembled by [mpu_write] along ANY merge
+    tree (every partitioning of the tile stream, every bracketing of merges, every spill size,
+    writes-per-chunk and writer limits with enough part numbers), the offset computed from the
+    sizes the header callback observed addresses exactly the bytes of that tile.  This discharges
+    the hypothesis [C06_stream_preserved] of [C05_entry_addresses_tile_bytes] with the theorem of
+    property C06 (Model/Mpu.v); [zsum (firstn n sizes)] is [presum sizes n]. *)
+From OG Require Model.Mpu Proofs.MpuProofs Proofs.CogMpuCompose.
+Theorem C05_offsets_address_tiles_under_any_schedule :
+  forall (A CI : Type) (pw : OG.Model.Mpu.writer), 0 <= OG.Model.Mpu.minw pw ->
+  forall wpc spill (hdr : list A) (t : OG.Model.Mpu.tree A CI),
+    1 <= wpc -> 0 <= spill -> OG.Model.Mpu.tree_ok t ->
+    OG.Model.Mpu.minp pw + OG.Model.Mpu.nleaves t * wpc <= OG.Model.Mpu.maxp pw ->
+    exists fp log,
+      OG.Model.Mpu.mpu_write OG.Model.Mpu.fixed pw wpc spill hdr false [] t
+        = Ok (fp, log, OG.Model.Mpu.obs_of (OG.Model.Mpu.tree_chunks t)) /\
+      let file := concat (map snd fp) in
+      let sizes := map fst (OG.Model.Mpu.obs_of (OG.Model.Mpu.tree_chunks t)) in
+      forall n c, nth_error (OG.Model.Mpu.tree_chunks t) n = Some c ->
+        let off := len hdr + OG.Proofs.CogMpuCompose.zsum (firstn n sizes) in
+        sel file off (off + len (fst c)) = fst c.
+Proof. exact @OG.Proofs.CogMpuCompose.offsets_address_chunks_in_assembled_file. Qed.
+Print Assumptions C05_offsets_address_tiles_under_any_schedule.
